@@ -75,6 +75,10 @@ def eval_call(I: Interp, node: ast.Call, fr: Frame):
         if n == "ite":
             c = I.truthy(I.ev(node.args[0], fr))
             return I.merge(c, I.ev(node.args[1], fr), I.ev(node.args[2], fr))
+        if n == "fresh":  # fresh(x): x was allocated during this call
+            v = I.to_sv(I.ev(node.args[0], fr))
+            base = st.fresh_base[-1] if st.fresh_base else st.alloc_entry
+            return I.as_bool_sv(z3.And(smt.is_ref(v.t), smt.rid(v.t) >= base, smt.rid(v.t) < st.alloc))
         if n == "bit":  # bit(x, i): i-th bit of a 32-bit non-negative integer, i concrete
             x, _ = I.num(I.to_sv(_as_intlike(I, I.ev(node.args[0], fr))))
             i = I.ev(node.args[1], fr)
@@ -443,16 +447,42 @@ def apply_contract(I: Interp, con: Contract, finfo: FuncInfo, selfv, args, kwarg
         st.oblige("callpre", f"{finfo.qualname}.{label}@L{line}", spec_bool(I, e, sf), line)
     old = dict(st.heap)
     old_alloc = st.alloc
+    if con.raises and not st.guards and not st.spec_depth:
+        # the callee may raise (only) under the conditions its contract lists
+        names = list(con.raises)
+        conds = [z3.BoolVal(True)] + [spec_bool(I, con.raises[n], sf) for n in names]
+        k = st.choose(len(conds), conds)
+        if k > 0:
+            st.assume(conds[k])
+            havoc(I, con.modifies, sf)
+            st.fresh_base.append(old_alloc)
+            st.old_stack.append(old)
+            try:
+                for label, e in con.raises_ensures:
+                    st.assume(spec_bool(I, e, sf))
+            finally:
+                st.old_stack.pop()
+                st.fresh_base.pop()
+            st.log.append(f"contract {finfo.key} (raising {names[k - 1]})")
+            raise RaiseEx(names[k - 1], node)
     havoc(I, con.modifies, sf)
+    if con.allocates:
+        a2 = st.fresh("alloc", smt.I)  # the callee may allocate
+        st.assume(a2 >= st.alloc)
+        st.alloc = a2
     rty = return_type(finfo)
     result = fresh_of_type(I, f"ret_{finfo.name}", rty)
     sf.locals["result"] = result
     st.old_stack.append(old)
+    st.fresh_base.append(old_alloc)
     try:
         for label, e in con.ensures:
             st.assume(spec_bool(I, e, sf))
     finally:
         st.old_stack.pop()
+        st.fresh_base.pop()
+    if not st.guards and st.solver.check() == z3.unsat:
+        raise Refuse(f"contract of {finfo.key} is inconsistent with the state at its call site (line {line}): vacuous proof refused")
     for ev in con.emits:
         emit_event(I, ev, sf)
     st.log.append(f"contract {finfo.key}")
